@@ -235,6 +235,10 @@ func genCase(t *rapid.T) Case {
 	c := Case{}
 	c.Cfg.Table = genTable(t)
 	c.Cfg.SetLimit, c.Cfg.Limit = true, limit
+	stmtNames, portalNames = []string{"", "a", "b"}, []string{"", "p", "a"}
+	if fam, pool := gen.Names(t); fam != "plain" {
+		c.NameFamily, stmtNames, portalNames = fam, pool, pool
+	}
 	c.Pipelined = rapid.IntRange(0, 3).Draw(t, "pipelined?") == 0
 	b := &builder{t: t, c: &c, md: model.New(c.Cfg.Table), fresh: map[string]bool{}}
 	k := gen.QueryNames
